@@ -9,6 +9,9 @@ from ..common import Verdict
 from . import defects
 
 BATCH = 250
+# custom type names that begin like a container or primitive the tool recognises by string prefix
+AWKWARD_NAMES = ["Options", "OptionalFeature", "Vec3", "Vector", "HashSetStats", "HashMapper", "BTreeMapView", "ResultSet", "Results", "Stringy",
+                 "Boolean", "U8", "I32Wrapper", "Record", "Tuple", "T", "Str", "Channel2"]
 SITES = ("param", "return", "field", "channel", "event")
 
 
@@ -21,6 +24,11 @@ def build_batch(types):
     src = [rg.PRELUDE, "use tauri::{AppHandle, Emitter, ipc::Channel};\n\n",
            rg.struct_src("Named", [("a", "i32")]),
            rg.command_src("use_named", [("n", "Named")], "Named")]
+    used = set()
+    for (_, t) in types:
+        used |= rg.named_in(t)
+    for nm in sorted(used - {"Named"}):
+        src.append(rg.struct_src(nm, [("a", "i32")]))
     for (i, t) in types:
         r = rg.rust(t)
         src.append(rg.struct_src("F%d" % i, [("v", with_static(t))]))
@@ -188,9 +196,13 @@ def run(tier):
             t = f(rg.P(p))
             if rg.valid_type(t):
                 types.append(t)
+    for nm in AWKWARD_NAMES:
+        types.append(rg.N(nm))
+        for (_, f) in rg.slots():
+            types.append(f(rg.N(nm)))
     nsample = 300 if tier == "quick" else 5000
     for _ in range(nsample):
-        types.append(rg.random_type(rnd, rnd.randint(maxd + 1, 6)))
+        types.append(rg.random_type(rnd, rnd.randint(maxd + 1, 6), named=("Named", rnd.choice(AWKWARD_NAMES))))
     # de-duplicate by rendering
     seen = set()
     uniq = []
